@@ -180,6 +180,33 @@ func feedbackDefs(seed uint64, i int) []Def {
 		}
 		out = append(out, d)
 	}
+	// --- genum: ONE package imported under TWO names, a trait typed through each of them: which
+	//     qualifier (and which import lines) the output uses must not depend on map iteration order
+	{
+		name := fmt.Sprintf("Pace%d", n)
+		nv := 2 + r.IntN(3)
+		lag, gap := "Lag"+name, "Gap"+name
+		var b strings.Builder
+		fmt.Fprintf(&b, "//nolint:all // farm definition\npackage fe%d\n\nimport (\n\tt1 \"time\"\n\tt2 \"time\"\n)\n\n// %s has traits typed through two imports of one package.\ntype %s int\n\n// Values of %s.\nconst (\n", n, name, name, name)
+		info := EnumInfo{Type: name, Traits: []string{lag, gap}}
+		for k := 0; k < nv; k++ {
+			l1, l2 := "_", "_"
+			if k == 0 {
+				l1, l2 = "_"+lag, "_"+gap
+			}
+			fmt.Fprintf(&b, "\t%sV%d, %s, %s = %s(%d), t1.Duration(%d), t2.Duration(%d)\n", name, k, l1, l2, name, k, k+1, 10*(k+1))
+			info.Values = append(info.Values, EnumValue{Name: fmt.Sprintf("%sV%d", name, k), Value: int64(k)})
+		}
+		b.WriteString(")\n")
+		d := Def{Gen: "genum", Pkg: fmt.Sprintf("fe%d", n), Types: []string{name}, Source: b.String(),
+			Enums: []EnumInfo{info}, Stream: "feedback", Shape: "one-package-imported-under-two-names",
+			Counts: map[string]int{"types": 1, "traits": 2, "values": nv, "imports": 2}}
+		if i%2 == 1 {
+			d.Opts = []string{"-parsableByTraits=" + lag}
+			d.Shape = "parsable-" + d.Shape
+		}
+		out = append(out, d)
+	}
 	// --- gsort: a field of the struct's own generated slice type, keyed through a generated method
 	{
 		typ := fmt.Sprintf("Node%d", n)
